@@ -1077,4 +1077,66 @@ theorem sorted_tie (L : Lay) (hL : L.WF) (mem : Mem) (h : Heap) (hR : Rep L mem 
           obtain ⟨_, _, r3, r4, _⟩ := iterator_insert_tie L hL _ h k2 hC ia hF it' k3 k4 hli n hn hnone hself
           exact ⟨by rw [u1]; exact kub, by rw [u2]; exact k1, by rw [u3]; exact r3, r4⟩
 
+/-! ### non-vacuity: the layout hypotheses are satisfiable (100 nodes and 100 lists in an array of words at 0x1000) -/
+
+def exampleLay : Lay where
+  base := 0x1000#64
+  idx := fun c => match c with
+    | .next n => 10 + n
+    | .head l => 1000 + 2 * l
+    | .tail l => 1001 + 2 * l
+  okN := fun n => n < 100
+  okL := fun l => l < 100
+
+theorem exampleLay_ok_next (n : Nat) (h : exampleLay.ok (.next n)) : n < 100 := h
+theorem exampleLay_ok_head (l : Nat) (h : exampleLay.ok (.head l)) : l < 100 := h
+theorem exampleLay_ok_tail (l : Nat) (h : exampleLay.ok (.tail l)) : l < 100 := h
+theorem exampleLay_idx_next (n : Nat) : exampleLay.idx (.next n) = (10 : Nat) + n := rfl
+theorem exampleLay_idx_head (l : Nat) : exampleLay.idx (.head l) = (1000 : Nat) + 2 * l := rfl
+theorem exampleLay_idx_tail (l : Nat) : exampleLay.idx (.tail l) = (1001 : Nat) + 2 * l := rfl
+
+theorem next_inj (a b : Nat) (h : a = b) : Cell.next a = Cell.next b := by rw [h]
+theorem head_inj (a b : Nat) (h : a = b) : Cell.head a = Cell.head b := by rw [h]
+theorem tail_inj (a b : Nat) (h : a = b) : Cell.tail a = Cell.tail b := by rw [h]
+
+theorem exampleLay_wf : exampleLay.WF where
+  base_pos := by decide
+  fits := by decide
+  small := by
+    intro c hc
+    cases c with
+    | next n => have := exampleLay_ok_next n hc; rw [exampleLay_idx_next]; omega
+    | head l => have := exampleLay_ok_head l hc; rw [exampleLay_idx_head]; omega
+    | tail l => have := exampleLay_ok_tail l hc; rw [exampleLay_idx_tail]; omega
+  inj := by
+    intro c c' hc hc' e
+    cases c with
+    | next n =>
+      have := exampleLay_ok_next n hc
+      cases c' with
+      | next m => rw [exampleLay_idx_next, exampleLay_idx_next] at e; exact next_inj n m (by omega)
+      | head l => have := exampleLay_ok_head l hc'; rw [exampleLay_idx_next, exampleLay_idx_head] at e; omega
+      | tail l => have := exampleLay_ok_tail l hc'; rw [exampleLay_idx_next, exampleLay_idx_tail] at e; omega
+    | head l =>
+      have := exampleLay_ok_head l hc
+      cases c' with
+      | next m => have := exampleLay_ok_next m hc'; rw [exampleLay_idx_head, exampleLay_idx_next] at e; omega
+      | head l' => rw [exampleLay_idx_head, exampleLay_idx_head] at e; exact head_inj l l' (by omega)
+      | tail l' => rw [exampleLay_idx_head, exampleLay_idx_tail] at e; omega
+    | tail l =>
+      have := exampleLay_ok_tail l hc
+      cases c' with
+      | next m => have := exampleLay_ok_next m hc'; rw [exampleLay_idx_tail, exampleLay_idx_next] at e; omega
+      | head l' => rw [exampleLay_idx_tail, exampleLay_idx_head] at e; omega
+      | tail l' => rw [exampleLay_idx_tail, exampleLay_idx_tail] at e; exact tail_inj l l' (by omega)
+  tail_next := by
+    intro l _
+    rw [exampleLay_idx_tail, exampleLay_idx_head]
+    omega
+
+/-- the all-NULL memory represents the heap in which every list is empty and no node is linked -/
+example : Rep exampleLay (fun _ => 0#8) ⟨fun _ => none, fun _ => none, fun _ => .null⟩ := by
+  intro c _
+  cases c <;> simp [val, encN, encT, W, Mem.load64, Mem.load32]
+
 end Librfn.C09.Tie
